@@ -107,7 +107,10 @@ def build_request(role: str, spec: Dict[str, Any], hostports: Dict[str, bytes]) 
     version = b'HTTP/1.0' if spec.get('last') == 'http10' else b'HTTP/1.1'
     head = b'%s %s %s\r\nHost: %s\r\nX-Req-Id: %s\r\n' % (spec['method'].encode(), target, version, host, rid)
     if spec.get('last') == 'close':
-        head += b'Connection: close\r\n'
+        head += b'Connection: %s\r\n' % (spec.get('conn_value') or 'close').encode()
+    elif spec.get('conn_value'):
+        # persistent connections announced the way real clients spell it: 'Keep-Alive' (ab, wget), 'keep-alive', 'KEEP-ALIVE'
+        head += b'Connection: %s\r\n' % spec['conn_value'].encode()
     if body is None:
         return head + b'\r\n'
     b = body.encode()
@@ -404,8 +407,15 @@ def cases(tier: str, seed: int):
             for r_ in reqs[1:]:
                 if rng.random() < 0.5:
                     r_['to'] = 'L'      # answered by the plugin itself, must not reach (or be answered by) any upstream
+        if rng.random() < 0.3:
+            cv = rng.choice(['Keep-Alive', 'keep-alive', 'KEEP-ALIVE', 'keep-alive, TE'])
+            for r_ in reqs:
+                if rng.random() < 0.8:
+                    r_['conn_value'] = cv
         if rng.random() < 0.25:
             reqs[-1]['last'] = rng.choice(['close', 'close', 'http10'])
+            if reqs[-1]['last'] == 'close':
+                reqs[-1]['conn_value'] = rng.choice(['close', 'close', 'Close', 'CLOSE'])
         elif role == 'web' and len(reqs) > 1 and rng.random() < 0.3:
             reqs[-1]['to'] = 'N'
         yield {'seed': seed, 'i': i, 'role': role, 'packing': packing, 'requests': reqs,
